@@ -182,7 +182,8 @@ impl<L: Language, N: Analysis<L>> EGraph<L, N> {
         let mut i = self.find_applied_id(i_orig);
         // i.m :: slots(i) -> X
         // i_orig.m :: slots(i_orig) -> X
-        if !i.slots().is_subset(&enode.slots()) {
+        // a node that mentions its own class can lose further slots through the very shrink it causes: repeat until it covers the class.
+        while !i.slots().is_subset(&enode.slots()) {
             self.handle_shrink_in_upwards_merge(src_id);
 
             enode = self.find_enode(&enode);
